@@ -12,6 +12,24 @@ INJ = [("src/lib.rs", "replay_sched.rs", "verif_replay_sched")]
 
 
 def native(prop, cex):
+    """1. lock-gated replay: the real operations as real threads forced through the schedule (lib/gated.py);
+    2. the block-wise sequential replay (replay_sched.rs).  Reproduced if either shows the violation."""
+    import gated
+    try:
+        rep, path, out = gated.run_gated(prop, cex)
+    except Exception as e:  # noqa: BLE001
+        rep, path, out = None, None, f"gated replay failed to run: {e}"
+    if rep is True:
+        return True, path, out
+    rep2, path2, out2 = native_blocks(prop, cex)
+    if rep2 is True:
+        return True, path2, out2
+    if rep is False or rep2 is False:
+        return False, path or path2, f"gated: {str(out)[-600:]}\nblock-wise: {str(out2)[-600:]}"
+    return None, path or path2, f"gated: {str(out)[-600:]}\nblock-wise: {str(out2)[-600:]}"
+
+
+def native_blocks(prop, cex):
     payload = {"property": prop, "values": cex, "replay_test": "replay_schedule", "source_digest": vlib.src_digest()}
     path = vlib.write_replay(prop, payload)
     with vlib.Scratch("native", tag=f"{prop}-sched") as scr:
